@@ -10,7 +10,7 @@ import numpy as np
 
 from ..sim import gen_sched, MODES, HarnessError
 from ..util import A, L, Result, sig6, random_composition
-from .common import SimRec, gen_simplex, trim
+from .common import SimRec, gen_simplex, trim, tail
 from .c04 import _cmp, dict_get
 
 ID = "C12"
@@ -87,8 +87,8 @@ def _gen_layout(rng, N):
 
 def gen_case(rng, tier, kind=None, N=None, nc=None):
     kind = kind or rng.choice(KINDS)
-    c = rng.randint(1, 3)
-    d = rng.randint(1, 3)
+    c = tail(rng, 1, 3, [9, 17, 33], 0.04)
+    d = tail(rng, 1, 3, [9, 17], 0.04)
     rs = np.random.RandomState(rng.getrandbits(32))
     scale = 10.0 ** rng.uniform(-1, 1)
     means = sig6(rs.randn(c, d) * 2 * scale)
@@ -113,9 +113,10 @@ def gen_case(rng, tier, kind=None, N=None, nc=None):
         # every partition and refuse iterators, so only the i-vector trainer is given them.
         "bagform": (rng.choice(["plain", "plain", "concat_mapped", "generator", "mapped"])
                     if kind == "ivector" else "plain"),
-        "cfg": {"rU": rng.randint(1, 3), "rV": rng.randint(1, 2), "it": rng.randint(1, 3),
+        "cfg": {"rU": tail(rng, 1, 3, [5, 9], 0.04), "rV": tail(rng, 1, 2, [5, 9], 0.04),
+                "it": tail(rng, 1, 3, [6], 0.03),
                 "rf": rng.choice([4.0, 1.0, 10.0]), "rs": rng.randint(0, 1000),
-                "dim_t": rng.randint(1, 3), "update_sigma": rng.random() < 0.6,
+                "dim_t": tail(rng, 1, 3, [5, 9, 17], 0.05), "update_sigma": rng.random() < 0.6,
                 "floor": rng.choice([1e-10, 1e-3 * scale * scale])},
         "np_seed": rng.randint(0, 2 ** 31 - 1),
         # a long-lived machine object: used (enrolment) or trained before this training
